@@ -18,6 +18,11 @@ var nestedPrefixGroups = [][][2]string{
 	{{"fmap", "fm"}, {"filter", "fmf"}},
 	{{"union", "merge"}, {"intersect", "mergeCommon"}},
 	{{"curry", "part"}, {"uncurry", "partial"}},
+	// one plugin takes the default prefix of another one, which is renamed itself (no two plugins share a prefix)
+	{{"equal", "deriveCompare"}, {"compare", "deriveOrd"}},
+	{{"compare", "deriveEqual"}, {"equal", "deriveSame"}},
+	{{"keys", "deriveSort"}, {"sort", "deriveOrder"}},
+	{{"min", "deriveMax"}, {"max", "deriveMost"}},
 }
 
 var flatOverrides = [][2]string{
